@@ -172,11 +172,23 @@ func main() {
 	out := hlib.NewOut(opts.OutDir)
 	defer out.Close()
 
+	if opts.Extra == "storeonly" { // development aid: the net-store stream alone
+		cases := storeCases(hlib.NewRng(opts.Seed*92821+33).Fork(), opts.Seed, opts.Thorough())
+		res, err := runNetBatch("store", "", cases)
+		if err != nil {
+			fmt.Println("stream batch failed:", err)
+			os.Exit(2)
+		}
+		for i := range cases {
+			emitNet(out, cases[i], res[i])
+		}
+		return
+	}
 	if opts.Replay != "" {
 		var nc netCase
 		if err := hlib.ReplayInput(opts.Replay, &nc); err == nil && nc.Net != "" {
 			mode := "net"
-			if nc.Net == "lim" || nc.Net == "srvlive" {
+			if nc.Net == "lim" || nc.Net == "srvlive" || nc.Net == "store" {
 				mode = nc.Net
 			}
 			res, err := runNetBatch(mode, nc.Lim, []netCase{nc})
